@@ -112,6 +112,7 @@ type Exec struct {
 	factTag     map[*Term]string
 	rangeIdx    []*Loc // hidden indices of the enclosing range loops over slices of unknown length
 	curFocus    string
+	inGlobalInit int
 	loopEntry   *State
 	curBlock    *Block
 }
